@@ -7,6 +7,8 @@ package main
 //           mb <slot> <to>      begin migrating the slot from its owner to node <to>
 //           mk <hexkey>         move one key of a migrating slot to the target
 //           mf <slot>           finish the migration of the slot
+//           mfl <slot> <n>      finish it, but the new owner lags behind: it still answers <n> commands with MOVED <old owner>
+//           ml <slot>           the new owner learns
 //           w                   give the proxy time to refresh its routing table
 //   bg = 1: a second connection keeps reading its own key through the proxy during the whole case
 //   output: replies joined by " ; " || final data per key (merged over the nodes) || executions per request ||
@@ -39,8 +41,11 @@ func parseC04Step(f []string) c04Step {
 	case "mk":
 		k, _ := hex.DecodeString(f[1])
 		st.key = string(k)
-	case "mf":
+	case "mf", "ml":
 		st.a, _ = strconv.Atoi(f[1])
+	case "mfl":
+		st.a, _ = strconv.Atoi(f[1])
+		st.b, _ = strconv.Atoi(f[2])
 	}
 	return st
 }
@@ -48,8 +53,12 @@ func parseC04Step(f []string) c04Step {
 func (cl *simCluster) applyLocked(st c04Step) {
 	switch st.kind {
 	case "mb":
+		if !cl.nodes[st.b].up {
+			return
+		}
+		delete(cl.lag, st.a) // a node that begins to migrate a slot away knows that it owns it
 		from := cl.owner[st.a]
-		if _, busy := cl.nodes[from].migrate[st.a]; busy || from == st.b || !cl.nodes[st.b].up {
+		if _, busy := cl.nodes[from].migrate[st.a]; busy || from == st.b {
 			return
 		}
 		cl.nodes[from].migrate[st.a] = st.b
@@ -65,7 +74,9 @@ func (cl *simCluster) applyLocked(st c04Step) {
 			cl.nodes[to].store[st.key] = v
 			delete(cl.nodes[from].store, st.key)
 		}
-	case "mf":
+	case "ml":
+		delete(cl.lag, st.a)
+	case "mf", "mfl":
 		from := cl.owner[st.a]
 		to, ok := cl.nodes[from].migrate[st.a]
 		if !ok {
@@ -80,6 +91,10 @@ func (cl *simCluster) applyLocked(st c04Step) {
 		delete(cl.nodes[from].migrate, st.a)
 		delete(cl.nodes[to].importF, st.a)
 		cl.owner[st.a] = to
+		if st.kind == "mfl" {
+			// the old owner knows, the new owner does not yet: it answers st.b more MOVED <old owner>
+			cl.lag[st.a] = &simLag{old: from, left: st.b}
+		}
 	}
 }
 
@@ -190,6 +205,7 @@ func runC04(line string) string {
 			// meets the dead node; after that the routing table must be refreshed without any periodic timer
 			idx, _ := strconv.Atoi(fs[1])
 			cl.mu.Lock()
+			cl.lag = map[int]*simLag{} // gossip has settled before a node is replaced
 			valid := idx < len(cl.nodes) && cl.nodes[idx].up
 			owns := -1
 			if valid {
@@ -250,6 +266,7 @@ func runC04(line string) string {
 			}
 			cl.mu.Lock()
 			cl.onAsk = nil
+			cl.lag = map[int]*simLag{} // a bounce reorders pipelined commands by its nature: not while a view lags
 			for _, nd := range cl.nodes {
 				nd.log = nil
 			}
@@ -410,7 +427,18 @@ func init() {
 			step := func(inHook int) string { // inHook: slot of the request the hook belongs to (-1: between requests)
 				k := keys[r.intn(len(keys))]
 				sl := slotOf(k)
-				switch r.intn(4) {
+				switch r.intn(6) {
+				case 4:
+					// finalisation that reaches the old owner first: the new owner bounces requests back for a while
+					if sl == simSlot([]byte("bg:key")) {
+						return fmt.Sprintf("mf %d", sl)
+					}
+					return fmt.Sprintf("mfl %d %d", sl, r.intn(4))
+				case 5:
+					if r.chance(1, 2) {
+						return fmt.Sprintf("ml %d", sl)
+					}
+					return "mk " + hex.EncodeToString(k)
 				case 0:
 					if inHook == sl { // a new migration of the request's own slot between its hops is excluded (see DESIGN.md)
 						return "mk " + hex.EncodeToString(k)
@@ -424,7 +452,35 @@ func init() {
 				}
 			}
 			for j, nj := 0, 3+r.intn(25); j < nj; j++ {
-				switch r.intn(10) {
+				switch r.intn(11) {
+				case 10:
+					// a finalisation window on a key that is then used: migrate its slot, finish with lag, requests
+					k := keys[r.intn(len(keys))]
+					sl := slotOf(k)
+					if sl == simSlot([]byte("bg:key")) {
+						continue
+					}
+					items = append(items, fmt.Sprintf("mb %d %d", sl, r.intn(n)))
+					if r.chance(1, 2) {
+						items = append(items, "mk "+hex.EncodeToString(k))
+					}
+					items = append(items, fmt.Sprintf("mfl %d %d", sl, 1+r.intn(3)))
+					for q, nq := 0, 1+r.intn(3); q < nq; q++ {
+						val := []byte("w" + strconv.Itoa(r.intn(30)))
+						switch r.intn(4) {
+						case 0:
+							items = append(items, "q "+bulkArr([]byte("incr"), k).String())
+						case 1:
+							items = append(items, "q "+bulkArr([]byte("get"), k).String())
+						case 2:
+							items = append(items, "q "+bulkArr([]byte("append"), k, val).String())
+						default:
+							items = append(items, "q "+bulkArr([]byte("mget"), k, keys[r.intn(len(keys))]).String())
+						}
+						if r.chance(1, 4) {
+							items = append(items, "w")
+						}
+					}
 				case 0, 1, 2:
 					items = append(items, step(-1))
 				case 3:
@@ -448,6 +504,8 @@ func init() {
 							k := keys[r.intn(len(keys))]
 							if r.chance(1, 2) {
 								hs = append(hs, "mk "+hex.EncodeToString(k))
+							} else if r.chance(1, 3) && slotOf(k) != simSlot([]byte("bg:key")) {
+								hs = append(hs, fmt.Sprintf("mfl %d %d", slotOf(k), r.intn(3)))
 							} else {
 								hs = append(hs, fmt.Sprintf("mf %d", slotOf(k)))
 							}
